@@ -1442,6 +1442,21 @@ add({"name": "hfe_side_blocks", "file": "dfs/img_hfe.cc",
 add({"name": "PicTrack_track_len", "file": "dfs/img_hfe.cc", "anchor": r"unsigned long track_len\(\) const",
      "sig": "static unsigned long PicTrack_track_len(const struct PicTrack *self)",
      "pre": "#define track_len_ (self->track_len_)\n", "post": "#undef track_len_\n", "rules": []})
+# the HxcMfmFile constructor: which valid headers are supported, and one drive per side (C05: one or two sides)
+add({"name": "hxc_check_supported", "file": "dfs/img_hxcmfm.cc",
+     "anchor": r"if \(header->sides [<>=!]+ \w+\)\s*\{\s*std::ostringstream ss;\s*ss << \"image file encodes more than 2 sides", "region_end": r"const std::map<TrackDataKey, TrackData> track_metadata = get_track_metadata\(\);",
+     "sig": "static void hxc_check_supported(const struct HxcHeader *header, struct HxcHeader *header_out)",
+     "rules": [(r"std::ostringstream ss;.*?throw UnsupportedHxcMfmFile\(ss\.str\(\)\);", "{ VERIF_THROW(Other, 0); return; }", ">=1"),
+               (r"\bheader_ = \*header;", "*header_out = *header;", 1)],
+     "dropped": ["diagnostic texts"]})
+add({"name": "hxc_side_loop", "file": "dfs/img_hxcmfm.cc",
+     "anchor": r"for \(unsigned int side = 0; side < header_\.sides; \+\+side\)\s*\{\s*std::vector<Sector> sectors = read_all_sectors\(side, track_metadata\);", "region_end": r"\n\}\s*std::string HxcMfmFile::description\(\) const",
+     "sig": "static void hxc_side_loop(const struct HxcMfmFile *self)",
+     "pre": "#define header_ (self->header_)\n", "post": "#undef header_\n",
+     "rules": [(r"(for \(unsigned int side = 0; side < header_\.sides; \+\+side\))", r"\1 HXC_SIDE_LOOP_CONTRACT", 1),
+               (r"std::vector<Sector> sectors = read_all_sectors\(side, track_metadata\);\s*DFS::Geometry g = compute_geometry\(1, sectors\);\s*acc_\.emplace_back\(this, g, (\w+), sectors\);",
+                r"hxc_side_model(side, \1);   /* read_all_sectors(side) -> compute_geometry -> adapter for that side */", 1)],
+     "dropped": ["read_all_sectors / compute_geometry (outside the verified set): the loop's own bookkeeping is kept"]})
 add({"name": "HxcAdapter_read_block", "file": "dfs/img_hxcmfm.cc",
      "anchor": r"std::optional<DFS::SectorBuffer> read_block\(unsigned long lba\) override",
      "sig": "static opt_SectorBuffer HxcAdapter_read_block(struct FluxAdapter *self, unsigned long lba)",
